@@ -397,6 +397,31 @@ func (env *sqlEnv) eval(e *SQLExpr) SVal {
 			}
 		}
 		return SVal{v: tt.UF("sql_like", SBool, a.v, b.v), null: tt.Or(a.null, b.null)}
+	case "extremum":
+		var acc SVal
+		for i, a := range e.args {
+			v := env.eval(a)
+			if v.v.sort != SBV64 {
+				sqlFail("%s over non-integer operands", e.name)
+			}
+			if i == 0 {
+				acc = v
+				continue
+			}
+			var pick *Term // true: take v
+			if e.name == "MIN" || e.name == "LEAST" {
+				pick = tt.SLt(v.v, acc.v)
+			} else {
+				pick = tt.SLt(acc.v, v.v)
+			}
+			if e.name == "MIN" || e.name == "MAX" {
+				acc = SVal{v: tt.Ite(pick, v.v, acc.v), null: tt.Or(acc.null, v.null)}
+			} else {
+				// NULLs are ignored
+				acc = SVal{v: tt.Ite(acc.null, v.v, tt.Ite(v.null, acc.v, tt.Ite(pick, v.v, acc.v))), null: tt.And(acc.null, v.null)}
+			}
+		}
+		return acc
 	case "jsonextract":
 		c, k := env.eval(e.args[0]), env.eval(e.args[1])
 		key, ok := stripPrefix(tt, k.v, "$.")
